@@ -30,6 +30,7 @@ class Corpus:
         self.extra_texts = list(extra_texts)
         self.harness = None
         self.stratify = True
+        self.interactions = True      # targeted construct interactions (GD.interactions), own PRNG stream
         self.backend_failures = []
         self.report_backend_failures = False
 
@@ -67,6 +68,10 @@ class Corpus:
         if self.stratify:
             for text, g in GD.stratified(self.rng, self.opts):
                 self.add_text(text, g, origin="stratified")
+        if self.interactions:
+            irng = random.Random(self.seed * 7919 + 13)
+            for text in GD.interactions(irng):
+                self.add_text(text, origin="interactions")
         tries = 0
         while len(self.descs) < self.n_desc + len(self.extra_texts) and tries < self.n_desc * 3:
             tries += 1
